@@ -142,11 +142,13 @@ def _point(beh):
     return {v: int(x * d) for v, x in vals.items()}, d
 
 
-def ev_contains(L_raw, beh):
+def ev_contains(L_raw, beh, tl=None):
+    """tl: a list object that has ALREADY answered earlier queries (its rows are then read from a fresh construction, not from the object)"""
     from pacti.iocontract import Var
 
-    tl = gen.mk_list(L_raw)
-    L = C.prows(tl)
+    L = C.prows(gen.mk_list(L_raw))
+    if tl is None:
+        tl = gen.mk_list(L_raw)
     v, exc = _ans(lambda: tl.contains_behavior({Var(k): float(x) for k, x in beh.items()}))
     q, d = _point(beh)
     return {"op": "contains", "L": L, "q": q, "d": d, "ans": ("true" if v else "false") if exc == "none" else exc,
@@ -163,16 +165,17 @@ def ev_empty(L_raw):
             "hints": {"empty": h}, "groups": ["empty"], "ok": True}
 
 
-def ev_consistency(L_raw, R_raw, beh):
+def ev_consistency(L_raw, R_raw, beh, objs=None):
+    """objs: (left, right) list objects shared with the earlier events of the same case"""
     from pacti.iocontract import Var
 
-    tl, tr = gen.mk_list(L_raw), gen.mk_list(R_raw)
+    tl, tr = objs or (gen.mk_list(L_raw), gen.mk_list(R_raw))
     b = {Var(k): float(x) for k, x in beh.items()}
     r, e1 = _ans(lambda: tl.refines(tr))
     a, e2 = _ans(lambda: tl.contains_behavior(b))
     c, e3 = _ans(lambda: tr.contains_behavior(b))
     s = lambda v, e: ("true" if v else "false") if e == "none" else e  # noqa: E731
-    return {"op": "consistency", "refines": s(r, e1), "inL": s(a, e2), "inR": s(c, e3), "L": C.prows(tl), "R": C.prows(tr),
+    return {"op": "consistency", "refines": s(r, e1), "inL": s(a, e2), "inR": s(c, e3), "L": C.prows(gen.mk_list(L_raw)), "R": C.prows(gen.mk_list(R_raw)),
             "names": [], "g": 0, "hints": {}, "groups": ["consistency"], "ok": True}
 
 
